@@ -370,7 +370,8 @@ class DFXPWriter(BaseWriter):
                         node.layout_info)
 
         # Create the styles in the <styling> section, or a default style.
-        for style_id, style in caption_set.get_styles():
+        for style_id, style in _referenced_styles_first(
+                caption_set.get_styles()):
             if style != {}:
                 dfxp = self._recreate_styling_tag(style_id, style, dfxp)
         if not caption_set.get_styles():
@@ -1180,6 +1181,28 @@ class RegionCreator:
         for region in regions:
             if region.attrs.get('xml:id') not in self._assigned_region_ids:
                 region.extract()
+
+
+def _referenced_styles_first(styles):
+    """Order (id, style) pairs so that a style comes after the styles it
+    refers to: a reference is only written if it resolves to a style that
+    is already in the document
+    """
+    styles = dict(styles)
+    ordered = []
+    placed = set()
+
+    def place(style_id):
+        if style_id in placed or style_id not in styles:
+            return
+        placed.add(style_id)
+        for referenced in str(styles[style_id].get('class', '')).split():
+            place(referenced)
+        ordered.append((style_id, styles[style_id]))
+
+    for style_id in styles:
+        place(style_id)
+    return ordered
 
 
 def _recreate_style(content, dfxp):
